@@ -447,6 +447,8 @@ class Sim:
         self.by_id: dict[str, SimWorker] = {}
         self.trace: list[str] = []            # labels taken (the replay)
         self.notes: list[str] = []
+        self.q_breaks: list[tuple] = []     # load mode: loop boundaries at which a registered live worker holds < 2 tests while the pool is non-empty
+        self.ready_ids: list[str] = []
         self.replay = list(schedule) if schedule is not None else None
         self.wirelog: list[tuple[str, str, Any]] = []     # (worker id, command, payload) in send order
         self.published: list[tuple] = []
@@ -650,6 +652,14 @@ class Sim:
             return
         self._open = None
         self.ctl_lines.append(self.event_line(o["event"], o["kwargs"]))
+        if o["event"] == "workerready":
+            self.ready_ids.append(o["kwargs"]["node"].gateway.id)
+        if exc is None and self.cfg.mode == "load" and self.dsession is not None and self.dsession.sched is not None:
+            # the invariant of Props/C02Ctl (C02_controller_load), read off the real scheduler at the loop boundary
+            sc = self.dsession.sched
+            for node, book in sc.node2pending.items():
+                if node in sc.node2collection and not node.shutting_down and len(book) < 2 and sc.pending:
+                    self.q_breaks.append((len(self.ctl_lines), node.gateway.id, list(book), len(sc.pending)))
         if exc is not None:
             self.ctl_obs.append(type(exc).__name__)
         else:
